@@ -208,6 +208,9 @@ def end_to_end(chk, P, prefix="C07", only=None):
         from . import c12
         return c12.ok_only_when_drained(P)
     _ob(chk, prefix, only, "R5:otlp-transport", "the OTLP transport acknowledges a batch only when no request is left", otlp_ok_when_drained)
+    if only is None:
+        from . import c12
+        c12.send_loop_rules(chk, P, prefix + ".R5.otlp")
 
     def init_flush():
         out = []
